@@ -179,6 +179,7 @@ func RunExpect(prefix []int, expect []Choice, maxSteps int, hook func(label stri
 	if S.active {
 		panic("vrt: nested Run")
 	}
+	vclock = 0 // virtual time restarts with every execution: persisted timestamps depend on the schedule only
 	*S = sched{
 		active:   true,
 		prefix:   prefix,
